@@ -22,7 +22,7 @@ COMPONENTS = dict(real='pytableaux.tools.hybrids.qset, pytableaux.tools.linked.l
                   stub='none')
 
 def plan(tier):
-    return dict(runs=24000 if tier == 'quick' else 600000, timeout=240 if tier == 'quick' else 3000)
+    return dict(runs=24000 if tier == 'quick' else 2400000, timeout=240 if tier == 'quick' else 5400)
 
 def make_spec(ctx):
     rng = ctx.rng('workload')
